@@ -97,7 +97,7 @@ def gen_case(rnd, thorough, force=None):
     for _ in range(nops):
         k = rnd.randrange(nslots)
         kinds = ["M", "M", "X", "X", "X", "A", "N"] if team else \
-                ["M", "M", "X", "X", "X", "B", "R", "D", "C", "C", "A", "N"]
+                ["M", "M", "X", "X", "X", "B", "R", "D", "C", "C", "A", "N", "W", "W"]
         op = rnd.choice(kinds) if not only else rnd.choice(only)
         if op == "M":
             p = rnd.choice(pgms) if rnd.random() < 0.8 else rnd.random()
@@ -124,6 +124,8 @@ def gen_case(rnd, thorough, force=None):
             ops.append(["C", str(k)])
         elif op == "A":
             ops.append(["A", str(k)])
+        elif op == "W":
+            ops.append(["W", str(k)])
         else:
             ops.append(["N", str(k)])
     hdr = ["T" if team else "I", str(rnd.randrange(1, 2**31)), str(R), str(patch), str(tsize), str(nslots)]
@@ -201,7 +203,7 @@ def case_line(case, nops=None):
 
 # ------------------------------------------------------------------ evaluation
 OPNAME = {"N": "construction", "M": "mutation", "X": "crossover", "B": "get_block", "R": "replace",
-          "D": "destroy_block", "C": "cse", "A": "inc_age", "F": "force_flavour"}
+          "D": "destroy_block", "C": "cse", "A": "inc_age", "F": "force_flavour", "W": "iterator_walk_and_blocks"}
 
 
 def judge(case, hline, mline, crash=None):
@@ -257,6 +259,21 @@ def judge(case, hline, mline, crash=None):
         if o[0] == "M" and int(o[2], 16) == 0 and (fl.get("same") != "1" or hextra != "0"):
             viols.append(("mutation:zero-probability-changes",
                           "mutation with probability zero changed the individual (count %s): %s" % (hextra, hdump[:200]), i))
+        if o[0] == "W" and okslot.get(k, True):
+            # the property's "begin()/end() walk of the result": never leaves the genome, strictly increasing
+            try:
+                w, nn, b = hextra.split("|")
+                wl = [tuple(int(x) for x in t.split(".")) for t in w.split(",")[1:]]
+                bl = [tuple(int(x) for x in t.split(".")) for t in b.split(",")[1:]]
+                ncat = case["ncats"]
+                good = (len(wl) >= 1 and all(0 <= a < R and 0 <= c < ncat for a, c in wl)
+                        and all(x < y for x, y in zip(wl, wl[1:])) and int(nn[1:]) == len(wl)
+                        and set(bl) <= set(wl))
+            except ValueError:
+                good = False
+            if not good:
+                viols.append(("walk:leaves-genome", "the begin()/end() walk of a well-formed individual leaves the genome "
+                              "or is not strictly increasing: %s" % hextra[:300], i))
         # ---- correspondence
         if mdump == "NONE":
             diffs.append((i, "model: no result (the draw stream does not fit the model)", hdump[:300]))
@@ -270,6 +287,8 @@ def judge(case, hline, mline, crash=None):
             diffs.append((i, "model left %s draws unconsumed" % mrest, hd[:200]))
         elif o[0] == "M" and mcnt != hextra:
             diffs.append((i, "mutation count %s" % mcnt, "mutation count %s" % hextra))
+        elif o[0] == "W" and mcnt != hextra:
+            diffs.append((i, "walk/active_symbols/blocks %s" % mcnt[:300], hextra[:300]))
     return diffs, viols, stats
 
 
@@ -391,7 +410,7 @@ def run(ck):
         rp = json.load(open(ck.replay_path))
         cases = [rp["case"]] if "case" in rp else rp.get("cases", [])
     else:
-        n = 30000 if ck.thorough else 1500
+        n = 16000 if ck.thorough else 1500
         cases = [witness_case()]
         # boundaries of the proofs' case splits: 2 and 3 rows per flavour, patch = rows - 1, one category
         for fl in range(4):
@@ -403,7 +422,7 @@ def run(ck):
         for _ in range(150 if not ck.thorough else 4000):
             cases.append(gen_case(rnd, ck.thorough, {"only": ["C", "C", "M", "X", "R"], "team": False,
                                                       "ncats": rnd.choice([2, 3, 4])}))
-        for _ in range(70 if not ck.thorough else 3000):
+        for _ in range(70 if not ck.thorough else 1200):
             cases.append(gen_near_case(rnd, ck.thorough))
         n += len([c for c in cases if c.get("family")])
         while len(cases) < n:
